@@ -525,6 +525,16 @@ pub fn gen_scenario(run_seed: u64, pool: &Pool) -> Scenario {
 /// prefix), the ASCII case of one letter flipped anywhere (case-folded keys), one digit
 /// changed (numeric normalisation).
 fn twin(s: &str, r: &mut Rng) -> String {
+    // a fifth kind, one time in five: the same metadata written the other way (old-style `>> k: v`
+    // lines moved into a YAML front matter, each value in a random YAML spelling - plain, quoted
+    // with or without padding, literal or folded block). Values that are "the same" to a reader
+    // reach the library as different strings (trailing newline, padding), which is what a
+    // normalising key of a memo confuses.
+    if r.chance(1, 5) {
+        if let Some(t) = respell_metadata(s, r) {
+            return t;
+        }
+    }
     let chars: Vec<char> = s.chars().collect();
     if chars.len() < 2 {
         return format!("{s}x");
@@ -560,4 +570,70 @@ fn twin(s: &str, r: &mut Rng) -> String {
         }
     }
     c.into_iter().collect()
+}
+
+fn yaml_spelling(v: &str, r: &mut Rng) -> String {
+    let dq = |x: &str| format!("\"{}\"", x.replace('\\', "\\\\").replace('"', "\\\""));
+    match r.below(8) {
+        0 => dq(v),
+        1 => dq(&format!("{v} ")),
+        2 => dq(&format!(" {v}")),
+        3 => format!("'{}'", v.replace('\'', "''")),
+        4 => format!("|\n  {v}"),
+        5 => format!(">-\n  {v}"),
+        6 => format!(">\n  {v}"),
+        _ => dq(&format!("{v}\t")),
+    }
+}
+
+/// `>> key: value` lines (not the `[config]` keys) moved into a front matter block, or - if the
+/// input has a front matter already - its plain one-line scalars respelled.
+fn respell_metadata(s: &str, r: &mut Rng) -> Option<String> {
+    let nl = if s.contains("\r\n") { "\r\n" } else { "\n" };
+    let lines: Vec<&str> = s.split(nl).collect();
+    if lines.first().map(|l| l.trim_end()) == Some("---") {
+        let end = lines.iter().skip(1).position(|l| l.trim_end() == "---")? + 1;
+        let mut out: Vec<String> = Vec::new();
+        let mut changed = false;
+        for (i, l) in lines.iter().enumerate() {
+            if i > 0 && i < end {
+                if let Some((k, v)) = l.split_once(": ") {
+                    let plain = !v.is_empty() && !v.starts_with(['[', '{', '"', '\'', '|', '>', '&', '*', '!', '#', '-', ' ']) && !v.contains(": ") && !v.contains(" #");
+                    if plain && !k.starts_with([' ', '-']) && r.chance(2, 3) {
+                        out.push(format!("{k}: {}", yaml_spelling(v, r)));
+                        changed = true;
+                        continue;
+                    }
+                }
+            }
+            out.push(l.to_string());
+        }
+        return changed.then(|| out.join(nl));
+    }
+    let mut meta: Vec<(String, String)> = Vec::new();
+    let mut body: Vec<&str> = Vec::new();
+    for l in &lines {
+        match l.strip_prefix(">> ").and_then(|x| x.split_once(": ")) {
+            Some((k, v)) if !k.starts_with('[') && !k.contains(':') && !v.trim().is_empty() => meta.push((k.trim().to_string(), v.trim().to_string())),
+            _ => body.push(l),
+        }
+    }
+    if meta.is_empty() {
+        return None;
+    }
+    let mut out = String::from("---");
+    out.push_str(nl);
+    let mut seen: Vec<&str> = Vec::new();
+    for (k, v) in &meta {
+        if seen.contains(&k.as_str()) {
+            continue; // a YAML mapping has no duplicate keys
+        }
+        seen.push(k);
+        out.push_str(&format!("{k}: {}", yaml_spelling(v, r)).replace('\n', nl));
+        out.push_str(nl);
+    }
+    out.push_str("---");
+    out.push_str(nl);
+    out.push_str(&body.join(nl));
+    Some(out)
 }
